@@ -692,6 +692,56 @@ def r13(F, R):
     R.floor("C08-R13", 1)
 
 
+
+def paired_estimators(F, R, rid="C08-R14"):
+    """The draw and gradient estimators of the diagonal strategy move in lock step (shared with C05)."""
+    R.rule(rid, "estimator pairs stay in step: in every method of the diagonal strategy a draw estimator and its gradient partner (`..draw..` <-> `..grad..`) "
+                "receive the same operations - as many stores, as many mem::replace and as many add_sample calls - so their sample counts agree whenever "
+                "the update divides one by the other (the code asserts `draw_bg.count() == grad_bg.count()`: a one-sided reset panics at the next draw)")
+    adts = [p for p in F.adts if path_ends(p, "transform::adapt::diagonal::Strategy")]
+    if not adts:
+        R.missing(rid, "transform::adapt::diagonal::Strategy")
+        return
+    adt = adts[0]
+    est = [f["name"] for f in F.adts[adt]["variants"][0]["fields"] if "RunningVariance" in f["ty"]]
+    pairs = [(d, d.replace("draw", "grad")) for d in est if "draw" in d and d.replace("draw", "grad") in est]
+    if len(pairs) < 2:
+        R.missing(rid, "draw/grad estimator pairs of %s (fields: %s)" % (adt, est))
+        return
+    stores = {f: K.field_writers(F, adt, f) for f in est}
+    n = 0
+    for b in sorted(F.bodies.values(), key=lambda x: x.path):
+        if b.kind == "closure" or not path_ends(b.parent.get("self_adt") or "", "transform::adapt::diagonal::Strategy"):
+            continue
+        cnt = {f: [0, 0, 0] for f in est}
+        for f in est:
+            cnt[f][0] = sum(1 for w in stores[f] if w[0] is b and w[4] in ("assign", "call"))
+        for bb, t in b.calls():
+            nm = t["callee"].get("name")
+            p = t["callee"].get("path", "")
+            which = 1 if path_ends(strip_generics(p), "mem::replace") else 2 if nm == "add_sample" else None
+            if which is None or not t["args"]:
+                continue
+            v = b.value(t["args"][0])
+            for x in vt_walk(v):
+                if x[0] == "field" and x[2] in cnt:
+                    cnt[x[2]][which] += 1
+                    break
+        if not any(any(c) for c in cnt.values()):
+            continue
+        for d, g in pairs:
+            if not (any(cnt[d]) or any(cnt[g])):
+                continue
+            n += 1
+            key = "%s:%s/%s" % (b.path, d, g)
+            site = "%s @%s" % (b.path, b.loc())
+            if cnt[d] == cnt[g]:
+                R.ok(rid, key, site, "stores / replaces / add_sample: %s on both" % cnt[d])
+            else:
+                R.bad(rid, key, site, "%s gets %s (stores, mem::replace, add_sample) but its partner %s gets %s: the two estimators of the pair no longer hold "
+                      "the same number of samples" % (d, cnt[d], g, cnt[g]))
+    R.floor(rid, 6)
+
 def run(F, R, config=None):
     r1_r3(F, R)
     r7(F, R)
@@ -705,6 +755,7 @@ def run(F, R, config=None):
     r11(F, R)
     r12(F, R)
     r13(F, R)
+    paired_estimators(F, R)
     from . import c02
     K.borrow_rule(R, lambda sub: c02.r10(F, sub), "C08-R10", "no logarithm of a product reduction in the transformation / math code: finite positive scales and "
                   "eigenvalues give a finite log-determinant (C02-R10 analysis)", only_rules={"C02-R10"})
